@@ -566,6 +566,17 @@ func (r *Report) ruleText(id string) string {
 	return ""
 }
 
+// theTier: "quick" or "thorough"; tb picks an enumeration bound of a decision table by tier.  The thorough tier
+// re-derives the same tables over a larger abstract universe (longer pools, more sites, more sizes).
+var theTier = "quick"
+
+func tb(quick, thorough int) int {
+	if theTier == "thorough" {
+		return thorough
+	}
+	return quick
+}
+
 // theProgram: the program currently analysed (used by the abstract evaluator to resolve package initialisers).
 var theProgram *Program
 
